@@ -677,3 +677,6 @@ PROPS["C02"]["claim"] += (" hsRun_incorrect_password / generated_newV2Session_in
                           "password makes newV2Session AS TRANSLATED return ErrIncorrectPassword — never a session, never a generic error — with no RAKP Message 3 sent.")
 # C17 also runs the paged enumerations: a second enumeration on a connection after a failed one (seed C17-B15)
 PROPS["C17"]["scenarios"] = PROPS["C17"]["scenarios"] + ["enum:suites,dcmi"]
+# a missed reply, then a peer that never stops sending: the next call still returns by its deadline (seed C05-B15, real UDP transport)
+PROPS["C05"]["scenarios"] = PROPS["C05"]["scenarios"] + ["flood"]
+PROPS["C13"]["scenarios"] = PROPS["C13"]["scenarios"] + ["flood"]
